@@ -152,21 +152,6 @@ CLAIMED = {
              "symlinks are outside the model (observed by the audit hook only).",
         design_ref="§5 C28",
     ),
-    "C34": dict(
-        category="proof",
-        technique="Lean 4 proof that the model of native_concat equals the documented result for every piece list, both "
-                  "call forms and any literal evaluator + exhaustive small piece lists and end-to-end native renders",
-        text="Theorem native_concat_spec (Props/C34.lean): for every list of pieces (strings and non-string values), "
-             "arriving as list or generator, and every literal evaluator, the transcription of native_concat returns None "
-             "for no output, the value itself for a single non-string value, and otherwise the literal the concatenated "
-             "text denotes or the text. Tie: all piece lists of length <3 (quick) / <4 (thorough) over 21 text pieces and "
-             "12 values against the real function (identity checked with `is`), random longer lists, render-modify-render "
-             "histories, 24 templates x value pairs through render / render_async / render in an async native "
-             "environment, and native environments with a finalize hook against a segment-level reference.",
-        note="Trusted: Lean kernel; hand model Model/Native.lean; ast.literal_eval/parse are a parameter (Python's); the "
-             "native code generator is covered end-to-end only.",
-        design_ref="§5 C34",
-    ),
     "C22": dict(
         category="proof",
         technique="Lean 4 proofs of the filter contracts on list models (partition, sizes, first occurrences, sorted "
